@@ -82,8 +82,9 @@ fn gen_case(prop: &str, r: &mut Rng) -> Case {
                 // generated only as the last goal of the top-level conjunction and never nested
                 let inner = Kinds { closure: false, ..kinds };
                 let b: Vec<SG> = (0..1 + r.below(2)).map(|_| g.goal(r, &mut scope, 2, &inner)).collect();
-                // C15: half of them as ONE closure value used twice in a row (each use is its own invocation)
-                if prop == "C15" && r.chance(1, 2) {
+                // C14, C15: half of them as ONE closure value used twice in a row (each use is its own invocation:
+                // `closure { .. }` has its body's answers every time it is solved — seeded changes C15-g, C14-i)
+                if (prop == "C15" || prop == "C14") && r.chance(1, 2) {
                     let k = Kinds { closure: false, fresh: true, ..kinds };
                     let mut b2: Vec<SG> = vec![];
                     // a body that introduces a fresh variable and can place it in more than one way
